@@ -3,6 +3,7 @@ import H264.SliceExact
 import H264.SliceConverse
 import H264.History
 import H264.Tables2
+import H264.TblProof
 /-! # C06 — Slice header parsing follows H.264 7.3.3 and stops exactly at slice data
 
 Model: `Slice.parseSliceHeader ctx hdr` mirrors `SliceHeader::from_bits(ctx, reader, nal_header)`.
@@ -71,5 +72,10 @@ theorem code_slice_type_table : Generated.sliceType.length = 64 ∧
     ∀ t : Fin 64, Generated.sliceType.getD t.val (9,9,9) =
       (if t.val ≤ 9 then (1, Tables2.famIdx (Slice.familyOf t.val), if t.val ≥ 5 then 1 else 0) else (0, 0, 0)) :=
   Tables2.sliceType_table
+
+/-- model `parseSliceHeader` (in the model context built by the model SPS / PPS parsers) = real `SliceHeader::from_bits`
+on the 64 swept slice headers, by proof on every run -/
+theorem model_parser_reproduces_code_on_slice_type_sweep :
+    ∀ t : Fin 64, TblProof.sliceTypeCode t.val = Generated.sliceType.getD t.val (9, 9, 9) := TblProof.sliceType_model_eq_code
 
 end C06
